@@ -5,6 +5,7 @@ package main
 
 import (
 	"fmt"
+	"io"
 	"net"
 
 	pt "gitlab.torproject.org/tpo/anti-censorship/pluggable-transports/goptlib"
@@ -14,8 +15,24 @@ import (
 	"syscall"
 	"testing"
 
+	"gitlab.com/yawning/obfs4.git/common/csrand"
+	"gitlab.com/yawning/obfs4.git/transports"
+
 	"verifsim/harness"
 )
+
+var origCsrandReader = csrand.Reader
+
+// the entropy seam of the transports (the relay-with-a-real-transport scenario)
+var verifEnv = &harness.Env{
+	SetEntropy: func(r io.Reader) {
+		if r == nil {
+			csrand.Reader = origCsrandReader
+		} else {
+			csrand.Reader = r
+		}
+	},
+}
 
 var verifProps = map[string]*harness.Prop{}
 
@@ -32,5 +49,13 @@ func TestVerif(t *testing.T) {
 	warm := make(chan os.Signal, 1)
 	signal.Notify(warm, syscall.SIGUSR2)
 	signal.Stop(warm)
-	harness.Main(t, &harness.Env{}, verifProps)
+	if err := transports.Init(); err != nil {
+		t.Fatal(err)
+	}
+	defer func() {
+		if ptStateDir != "" {
+			os.RemoveAll(ptStateDir)
+		}
+	}()
+	harness.Main(t, verifEnv, verifProps)
 }
